@@ -71,10 +71,18 @@ type c12 struct {
 
 func newC12(t *testing.T, rng *rand.Rand, rec *sim.Rec, rto time.Duration) *c12 {
 	n := simnet.New()
-	srv, err := sim.NewScriptedServer(n, sim.ServerIP4, 3478)
+	// the transaction's destination is the configured TURN/STUN server or (1 in 3) some other
+	// address, as with SendBindingRequestTo or a separate STUN server: every transmission of a
+	// transaction goes to the destination it was started with
+	srvIP := sim.ServerIP4
+	if rng.Intn(3) == 0 {
+		srvIP = net.IPv4(10, 0, 0, 9).To4()
+	}
+	srv, err := sim.NewScriptedServer(n, srvIP, 3478)
 	if err != nil {
 		t.Fatal(err)
 	}
+	rec.FP("destination/elsewhere=%v", !srvIP.Equal(sim.ServerIP4))
 	logs := sim.NewLogSink()
 	rc, err := sim.NewRealClient(n, net.IPv4(10, 1, 0, 1).To4(), 5000, "10.0.0.1:3478", "alice", "pw-a", "verif.test", rto, logs, nil)
 	if err != nil {
